@@ -66,6 +66,9 @@ Definition aq_raises (a : astate) (q : query) : bool :=
   | QV2K _ => false
   | QPure => false
   | QBad => true
+  (* a tuple finds something exactly when it is the key tuple of some value *)
+  | QTup kt => negb (existsb (fun v => tup_eqb (keys_of a v) kt) (values_of a))
+  | QNo => true
   end.
 
 Definition astep (strategy : bool) (a : astate) (o : op) : astate * bool :=
@@ -83,6 +86,8 @@ Definition astep (strategy : bool) (a : astate) (o : op) : astate * bool :=
                                     | Some _ => (AST (amap a) (clock a) None, false)
                                     | None => (a, true) end
                    else (a, true)
+  (* a tuple is never a key: deleting one is refused with KeyError and changes nothing *)
+  | ODelT _ => (a, true)
   end.
 
 (* the view the property promises (keys()/iteration only up to order) *)
